@@ -185,7 +185,10 @@ def match_writer(ctx, rule, fi, items, oracle, path="Header", loopvar=None):
                 continue
             counts = {count} if isinstance(count, str) else set(count)
             ok = it.count in counts and (over is None or it.over in ({over} if isinstance(over, str) else set(over)))
-            ctx.check(ok, rule, site, f"{path}: block repeated {sorted(counts)[0]} times",
+            # the length of a run-time element (zip / min(len(..)) of loop elements) is not a static quantity
+            elementwise = (it.count.startswith("zip(") or "min(len(" in it.count) and not any(
+                c.startswith("zip(") or "min(len(" in c for c in counts)
+            ctx.decide(ok, not elementwise, rule, site, f"{path}: block repeated {sorted(counts)[0]} times",
                       f"{path}: block is written {it.count} times (over {it.over}); the reader repeats it "
                       f"{sorted(counts)} times", key=f"count:{path}/{sorted(counts)[0]}", where=loc(fi, it.node))
             ok_all &= ok
